@@ -23,10 +23,6 @@ UNIT_NAMES = ['FEET_TO_METERS', 'METERS_TO_FEET', 'METERS_TO_FL', 'FL_TO_METERS'
 # the statements of PerformanceTable.interpolate after `fl = ...` (compared as ASTs)
 _INTERPOLATE_REST = '''
 mass = state.aircraft_mass
-if mass == 'min':
-    mass = min(self.mass)
-elif mass == 'max':
-    mass = max(self.mass)
 if rocd not in self._interpolators:
     self._interpolators[rocd] = Interpolator(self.subset(rocd).df)
 return self._interpolators[rocd](fl, mass)
@@ -100,8 +96,383 @@ def extract_c06(repo: Path) -> tuple[str, dict]:
     m.raw(f'Definition alt_to_fl (v_alt : T N) : T N := {conv}.')
     want = ast.parse(_INTERPOLATE_REST).body
     rest = body[1:]
+    chains = [st for st in rest if isinstance(st, ast.If) and _is_symbolic_chain(st)]
+    if len(chains) != 1 or rest.index(chains[0]) != 1:
+        raise Untranslatable('legacy.py:interpolate: expected one if/elif chain on the symbolic masses after '
+                             '`mass = state.aircraft_mass`')
+    m.raw(_symbolic_mass(chains[0]))
+    rest = [st for st in rest if st is not chains[0]]
     if len(rest) != len(want) or any(dump(a) != dump(b) for a, b in zip(rest, want)):
         raise Untranslatable('legacy.py:interpolate: statements after the flight-level conversion changed: '
                              + ast.unparse(ast.Module(body=rest, type_ignores=[]))[:300])
+    _post_init(m, cls)
+    _subset_masks(m, cls)
+    _evaluate_impl(mod)
+    _ptf(m, src)
     meta = {'conversion': ast.unparse(first.value)}
-    return m.text(), meta
+    text = m.text().replace('From AV Require Import lib.Num.\n',
+                            'From Coq Require Import List Arith.\nFrom AV Require Import lib.Num model.C06_Model.\n'
+                            'Import ListNotations.\n', 1)
+    return text, meta
+
+
+# ---------------------------------------------------------------------------------------------------------------
+# symbolic masses:  if mass == 'min': mass = min(self.mass)  elif mass == 'max': mass = max(self.mass)
+# ---------------------------------------------------------------------------------------------------------------
+
+def _sym_branch(st: ast.If):
+    t = st.test
+    if not (isinstance(t, ast.Compare) and len(t.ops) == 1 and isinstance(t.ops[0], ast.Eq)
+            and isinstance(t.left, ast.Name) and t.left.id == 'mass' and isinstance(t.comparators[0], ast.Constant)
+            and isinstance(t.comparators[0].value, str)):
+        return None
+    if len(st.body) != 1:
+        return None
+    a = st.body[0]
+    if not (isinstance(a, ast.Assign) and len(a.targets) == 1 and isinstance(a.targets[0], ast.Name)
+            and a.targets[0].id == 'mass' and isinstance(a.value, ast.Call) and isinstance(a.value.func, ast.Name)
+            and a.value.func.id in ('min', 'max') and len(a.value.args) == 1 and not a.value.keywords
+            and dump(a.value.args[0]) == dump(ast.parse('self.mass', mode='eval').body)):
+        return None
+    return t.comparators[0].value, a.value.func.id
+
+
+def _is_symbolic_chain(st: ast.If) -> bool:
+    return _sym_branch(st) is not None
+
+
+def _symbolic_mass(st: ast.If) -> str:
+    table = {}
+    cur = st
+    while True:
+        b = _sym_branch(cur)
+        if b is None:
+            raise Untranslatable('legacy.py:interpolate: symbolic-mass branch not of the form '
+                                 "`mass == '<s>': mass = min|max(self.mass)`")
+        if b[0] in table:
+            raise Untranslatable(f'legacy.py:interpolate: symbol {b[0]!r} twice')
+        table[b[0]] = b[1]
+        if not cur.orelse:
+            break
+        if len(cur.orelse) != 1 or not isinstance(cur.orelse[0], ast.If):
+            raise Untranslatable('legacy.py:interpolate: else branch in the symbolic-mass chain')
+        cur = cur.orelse[0]
+    if sorted(table) != ['max', 'min']:
+        raise Untranslatable(f'legacy.py:interpolate: symbolic masses are {sorted(table)}, expected min and max')
+    f = {'min': 'list_min', 'max': 'list_max'}
+    return ('Definition x_resolve_mass (rows : list (row N)) (q : massq N) : T N :=\n'
+            f"  match q with MMin => {f[table['min']]} (masses rows) | MMax => {f[table['max']]} (masses rows) "
+            '| MVal m => m end.')
+
+
+# ---------------------------------------------------------------------------------------------------------------
+# PerformanceTable.__post_init__: mass-count rule, the three masks, coverage / FL-only tests and their order
+# ---------------------------------------------------------------------------------------------------------------
+
+LABELS = {'zero': 'Cruise', 'positive': 'Climb', 'negative': 'Descent'}
+VARS = {'tas': 'VTas', 'fuel_flow': 'VFf', 'rocd': 'VRocd'}
+CHECK_NAMES = {'check_zero': 'Cruise', 'check_pos': 'Climb', 'check_neg': 'Descent'}
+
+
+def _all_over_rocd(m: NumModule, test: ast.AST, where: str) -> str:
+    """all(<cond on v> for v in self.rocd)  ->  Gallina boolean function body of v"""
+    if not (isinstance(test, ast.Call) and isinstance(test.func, ast.Name) and test.func.id == 'all'
+            and len(test.args) == 1 and isinstance(test.args[0], ast.GeneratorExp)):
+        raise Untranslatable(f'{where}: expected all(... for v in self.rocd)')
+    g = test.args[0]
+    if len(g.generators) != 1 or g.generators[0].ifs or not isinstance(g.generators[0].target, ast.Name) \
+            or dump(g.generators[0].iter) != dump(ast.parse('self.rocd', mode='eval').body):
+        raise Untranslatable(f'{where}: generator must range over self.rocd')
+    v = g.generators[0].target.id
+    return m.bexpr(g.elt, {v: 'v', 'self.ZERO_ROCD_TOL': 'ZERO_ROCD_TOL'}, where)
+
+
+class _NatExpr:
+    """len(...) arithmetic of check_coverage / check_fl_only -> Gallina over nat"""
+
+    def __init__(self, atoms: dict[str, str], lets: dict[str, ast.AST]):
+        self.atoms = atoms       # ast dump -> Gallina variable
+        self.lets = lets
+
+    def num(self, n: ast.AST) -> str:
+        d = dump(n)
+        if d in self.atoms:
+            return self.atoms[d]
+        if isinstance(n, ast.Name) and n.id in self.lets:
+            return self.num(self.lets[n.id])
+        if isinstance(n, ast.BinOp) and isinstance(n.op, ast.Mult):
+            return f'({self.num(n.left)} * {self.num(n.right)})%nat'
+        if isinstance(n, ast.BinOp) and isinstance(n.op, ast.Add):
+            return f'({self.num(n.left)} + {self.num(n.right)})%nat'
+        raise Untranslatable(f'legacy.py:__post_init__: count expression {ast.unparse(n)}')
+
+    def boolean(self, n: ast.AST) -> str:
+        if isinstance(n, ast.BoolOp):
+            j = ' || ' if isinstance(n.op, ast.Or) else ' && '
+            return '(' + j.join(self.boolean(v) for v in n.values) + ')'
+        if isinstance(n, ast.Compare) and len(n.ops) == 1:
+            a, b = self.num(n.left), self.num(n.comparators[0])
+            if isinstance(n.ops[0], ast.NotEq):
+                return f'(negb (Nat.eqb {a} {b}))'
+            if isinstance(n.ops[0], ast.Eq):
+                return f'(Nat.eqb {a} {b})'
+        raise Untranslatable(f'legacy.py:__post_init__: count test {ast.unparse(n)}')
+
+
+def _e(text: str) -> str:
+    return dump(ast.parse(text, mode='eval').body)
+
+
+def _single_raise_if(body: list[ast.stmt], where: str):
+    """[assignments..., if <test>: raise ...] -> (lets, test)"""
+    lets = {}
+    for st in body[:-1]:
+        if not (isinstance(st, ast.Assign) and len(st.targets) == 1 and isinstance(st.targets[0], ast.Name)):
+            raise Untranslatable(f'{where}: unexpected statement {ast.unparse(st)[:60]}')
+        lets[st.targets[0].id] = st.value
+    last = body[-1]
+    if not (isinstance(last, ast.If) and not last.orelse and len(last.body) == 1 and isinstance(last.body[0], ast.Raise)):
+        raise Untranslatable(f'{where}: must end with `if <test>: raise`')
+    return lets, last.test
+
+
+def _post_init(m: NumModule, cls: ast.ClassDef):
+    fn = find_function(ast.Module(body=[cls], type_ignores=[]), '__post_init__', cls='PerformanceTable')
+    body = strip_doc(fn.body)
+    where = 'legacy.py:__post_init__'
+    # ---- mass-count rule
+    default = None
+    chain = None
+    count_test = None
+    for st in body:
+        if isinstance(st, ast.Assign) and len(st.targets) == 1 and isinstance(st.targets[0], ast.Name) \
+                and st.targets[0].id == 'n_mass_values' and chain is None:
+            if not (isinstance(st.value, ast.Constant) and isinstance(st.value.value, int)):
+                raise Untranslatable(f'{where}: n_mass_values default')
+            default = st.value.value
+        elif isinstance(st, ast.If) and chain is None and isinstance(st.test, ast.Call) \
+                and isinstance(st.test.func, ast.Name) and st.test.func.id == 'all':
+            chain = st
+        elif isinstance(st, ast.If) and chain is not None and count_test is None:
+            count_test = st
+    if default is None or chain is None or count_test is None:
+        raise Untranslatable(f'{where}: mass-count rule not found')
+    if dump(count_test.test) != _e('len(self.mass) != n_mass_values') or not any(
+            isinstance(x, ast.Raise) for x in count_test.body):
+        raise Untranslatable(f'{where}: mass-count test changed: {ast.unparse(count_test.test)}')
+    branches = []
+    cur = chain
+    while True:
+        cond = _all_over_rocd(m, cur.test, where)
+        n = default
+        for st in cur.body:
+            if isinstance(st, ast.Assign) and isinstance(st.targets[0], ast.Name):
+                if st.targets[0].id == 'n_mass_values':
+                    if not (isinstance(st.value, ast.Constant) and isinstance(st.value.value, int)):
+                        raise Untranslatable(f'{where}: n_mass_values in branch')
+                    n = st.value.value
+                elif st.targets[0].id != 'sub_table':
+                    raise Untranslatable(f'{where}: assignment to {st.targets[0].id} in the mass-count chain')
+            else:
+                raise Untranslatable(f'{where}: statement in the mass-count chain')
+        branches.append((cond, n))
+        if not cur.orelse:
+            break
+        if len(cur.orelse) != 1 or not isinstance(cur.orelse[0], ast.If):
+            raise Untranslatable(f'{where}: else branch in the mass-count chain')
+        cur = cur.orelse[0]
+    txt = 'Definition x_required_masses (rocds : list (T N)) : nat :=\n'
+    for cond, n in branches:
+        txt += f'  if forallb (fun v => {cond}) rocds then {n}%nat else\n'
+    txt += f'  {default}%nat.'
+    m.raw(txt)
+    # ---- the three masks
+    masks = {}
+    for st in body:
+        if isinstance(st, ast.Assign) and len(st.targets) == 1 and isinstance(st.targets[0], ast.Name) \
+                and st.targets[0].id in CHECK_NAMES:
+            v = st.value
+            if not (isinstance(v, ast.Subscript) and dump(v.value) == _e('self.df')):
+                raise Untranslatable(f'{where}: {st.targets[0].id} must be self.df[<mask>]')
+            masks[st.targets[0].id] = m.bexpr(v.slice, {'self.df.rocd': 'v', 'self.ZERO_ROCD_TOL': 'ZERO_ROCD_TOL'}, where)
+    if sorted(masks) != sorted(CHECK_NAMES):
+        raise Untranslatable(f'{where}: masks found: {sorted(masks)}')
+    for k, ph in CHECK_NAMES.items():
+        m.raw(f'Definition x_mask_{ph} (v : T N) : bool := {masks[k]}.')
+    # ---- coverage / FL-only tests
+    defs = {st.name: st for st in body if isinstance(st, ast.FunctionDef)}
+    if sorted(defs) != ['check_coverage', 'check_fl_only']:
+        raise Untranslatable(f'{where}: local functions {sorted(defs)}')
+    cov = defs['check_coverage']
+    if [a.arg for a in cov.args.args] != ['df', 'label']:
+        raise Untranslatable(f'{where}: check_coverage signature')
+    lets, test = _single_raise_if(strip_doc(cov.body), where + ':check_coverage')
+    ne = _NatExpr({_e('len(df)'): 'n_rows', _e('len(df.fl.unique())'): 'n_fl', _e('len(df.mass.unique())'): 'n_mass',
+                   _e("len(df.drop_duplicates(subset=['fl', 'mass']))"): 'n_pairs'}, lets)
+    m.raw(f'Definition x_coverage_fails (n_pairs n_rows n_fl n_mass : nat) : bool := {ne.boolean(test)}.')
+    flo = defs['check_fl_only']
+    if [a.arg for a in flo.args.args] != ['df', 'var', 'label']:
+        raise Untranslatable(f'{where}: check_fl_only signature')
+    lets, test = _single_raise_if(strip_doc(flo.body), where + ':check_fl_only')
+    ne = _NatExpr({_e('len(df.fl.unique())'): 'n_fl', _e("len(df.drop_duplicates(subset=['fl', var]))"): 'n_pairs'}, lets)
+    m.raw(f'Definition x_fl_only_fails (n_pairs n_fl : nat) : bool := {ne.boolean(test)}.')
+    # ---- order of the checks
+    cov_order, flo_order = [], []
+    seen_flo = False
+    for st in body:
+        if isinstance(st, ast.Expr) and isinstance(st.value, ast.Call) and isinstance(st.value.func, ast.Name):
+            c = st.value
+            if c.func.id == 'check_coverage':
+                if seen_flo or len(c.args) != 2 or c.keywords:
+                    raise Untranslatable(f'{where}: coverage checks must come first')
+                if not (isinstance(c.args[0], ast.Name) and isinstance(c.args[1], ast.Constant)
+                        and CHECK_NAMES.get(c.args[0].id) == LABELS.get(c.args[1].value)):
+                    raise Untranslatable(f'{where}: {ast.unparse(c)}: sub-table and label disagree')
+                cov_order.append(CHECK_NAMES[c.args[0].id])
+            elif c.func.id == 'check_fl_only':
+                seen_flo = True
+                if len(c.args) != 3 or c.keywords or not (isinstance(c.args[0], ast.Name)
+                                                          and isinstance(c.args[1], ast.Constant)
+                                                          and isinstance(c.args[2], ast.Constant)
+                                                          and c.args[1].value in VARS
+                                                          and CHECK_NAMES.get(c.args[0].id) == LABELS.get(c.args[2].value)):
+                    raise Untranslatable(f'{where}: {ast.unparse(c)}')
+                flo_order.append((VARS[c.args[1].value], CHECK_NAMES[c.args[0].id]))
+            else:
+                raise Untranslatable(f'{where}: call {ast.unparse(c)[:60]}')
+    m.raw('Definition x_coverage_order : list phase := [' + '; '.join(cov_order) + '].')
+    m.raw('Definition x_fl_only_order : list (var * phase) := [' + '; '.join(f'({a}, {b})' for a, b in flo_order) + '].')
+
+
+def _subset_masks(m: NumModule, cls: ast.ClassDef):
+    fn = find_function(ast.Module(body=[cls], type_ignores=[]), 'subset', cls='PerformanceTable')
+    where = 'legacy.py:subset'
+    mt = [st for st in fn.body if isinstance(st, ast.Match)]
+    if len(mt) != 1 or dump(mt[0].subject) != _e('rocd'):
+        raise Untranslatable(f'{where}: expected one `match rocd`')
+    names = {'NEGATIVE': 'Descent', 'ZERO': 'Cruise', 'POSITIVE': 'Climb'}
+    found = {}
+    for case in mt[0].cases:
+        pat = case.pattern
+        if not (isinstance(pat, ast.MatchValue) and isinstance(pat.value, ast.Attribute)
+                and dump(pat.value.value) == _e('ROCDFilter') and pat.value.attr in names and case.guard is None):
+            raise Untranslatable(f'{where}: case pattern {ast.unparse(pat)}')
+        if len(case.body) != 1 or not isinstance(case.body[0], ast.Assign):
+            raise Untranslatable(f'{where}: case body')
+        a = case.body[0]
+        if not (dump(a.targets[0]) == dump(ast.parse('df_new', mode='eval').body).replace('Load', 'Store')
+                and isinstance(a.value, ast.Subscript) and dump(a.value.value) == _e('df_new')):
+            raise Untranslatable(f'{where}: case must be df_new = df_new[<mask>]')
+        found[names[pat.value.attr]] = m.bexpr(a.value.slice, {'df_new.rocd': 'v', 'self.ZERO_ROCD_TOL': 'ZERO_ROCD_TOL'}, where)
+    if sorted(found) != ['Climb', 'Cruise', 'Descent']:
+        raise Untranslatable(f'{where}: cases {sorted(found)}')
+    for ph in ('Climb', 'Cruise', 'Descent'):
+        m.raw(f'Definition x_subset_{ph} (v : T N) : bool := {found[ph]}.')
+
+
+_EVALUATE_IMPL = '''
+match rules:
+    case SimpleFlightRules.CLIMB:
+        return self._performance_table.interpolate(state, ROCDFilter.POSITIVE)
+    case SimpleFlightRules.CRUISE:
+        return self._performance_table.interpolate(state, ROCDFilter.ZERO)
+    case SimpleFlightRules.DESCEND:
+        return self._performance_table.interpolate(state, ROCDFilter.NEGATIVE)
+'''
+
+
+def _evaluate_impl(mod: ast.Module):
+    fn = find_function(mod, 'evaluate_impl', cls='LegacyPerformanceModel')
+    body = strip_doc(fn.body)
+    want = ast.parse(_EVALUATE_IMPL).body
+    if len(body) != len(want) or any(dump(a) != dump(b) for a, b in zip(body, want)):
+        raise Untranslatable('legacy.py:evaluate_impl: mapping flight rule -> ROCD filter changed')
+
+
+# ---------------------------------------------------------------------------------------------------------------
+# PTF: column -> unit conversions of PTFData.load, row construction of build_performance_table
+# ---------------------------------------------------------------------------------------------------------------
+
+class _FloatCol(ast.NodeTransformer):
+    """float(<name>_vals[k]) -> Name x<k>"""
+
+    def __init__(self, arr: str):
+        self.arr = arr
+        self.used: set[int] = set()
+
+    def visit_Call(self, n: ast.Call):
+        if isinstance(n.func, ast.Name) and n.func.id == 'float' and len(n.args) == 1 and not n.keywords:
+            a = n.args[0]
+            if isinstance(a, ast.Subscript) and isinstance(a.value, ast.Name) and a.value.id == self.arr \
+                    and isinstance(a.slice, ast.Constant) and isinstance(a.slice.value, int):
+                self.used.add(a.slice.value)
+                return ast.copy_location(ast.Name(id=f'x{a.slice.value}', ctx=ast.Load()), n)
+        return self.generic_visit(n)
+
+
+def _ptf(m: NumModule, src: Path):
+    reader = src / 'parsers/ptf_reader.py'
+    rmod = m._src(reader)
+    imported = set()
+    for n in rmod.body:
+        if isinstance(n, ast.ImportFrom) and n.module == 'AEIC.units':
+            imported |= {a.name for a in n.names if a.asname is None}
+    load = find_function(rmod, 'load', cls='PTFData')
+    spec = {'CruisePhaseData': ('c_vals', ['tas', 'fuel_flow_low', 'fuel_flow_nom', 'fuel_flow_high'], 4),
+            'ClimbPhaseData': ('cl_vals', ['tas', 'rocd_low', 'rocd_nom', 'rocd_high', 'fuel_flow_nom'], 5),
+            'DescentPhaseData': ('d_vals', ['tas', 'rocd_nom', 'fuel_flow_nom'], 3)}
+    conv: dict[str, dict[str, str]] = {}
+    for call in [n for n in ast.walk(load) if isinstance(n, ast.Call) and isinstance(n.func, ast.Name)
+                 and n.func.id in spec]:
+        cname = call.func.id
+        arr, fields, ncol = spec[cname]
+        if cname in conv or call.args:
+            raise Untranslatable(f'ptf_reader.py: {cname} constructed twice / positionally')
+        kw = {k.arg: k.value for k in call.keywords}
+        if sorted(kw) != sorted(fields + ['fl']) or dump(kw['fl']) != _e('fl'):
+            raise Untranslatable(f'ptf_reader.py: {cname} fields {sorted(kw)}')
+        out = {}
+        for f in fields:
+            tr = _FloatCol(arr)
+            e = tr.visit(ast.parse(ast.unparse(kw[f]), mode='eval').body)
+            for nm in {x.id for x in ast.walk(e) if isinstance(x, ast.Name)}:
+                if nm in UNIT_NAMES and nm not in imported:
+                    raise Untranslatable(f'ptf_reader.py: {nm} not imported from AEIC.units')
+            out[f] = m.expr(e, {f'x{k}': f'x{k}' for k in range(ncol)}, f'ptf_reader.py:{cname}.{f}')
+        conv[cname] = out
+        short = {'CruisePhaseData': 'cruise', 'ClimbPhaseData': 'climb', 'DescentPhaseData': 'descent'}[cname]
+        args = ' '.join(f'x{k}' for k in range(ncol))
+        m.raw(f'Definition x_ptf_{short} ({args} : T N) := (' + ', '.join(out[f] for f in fields) + ').')
+    if sorted(conv) != sorted(spec):
+        raise Untranslatable(f'ptf_reader.py: constructors found: {sorted(conv)}')
+
+    cmd = src / 'commands/make_performance_model.py'
+    cmod = m._src(cmd)
+    fn = find_function(cmod, 'build_performance_table')
+    body = strip_doc(fn.body)
+    where = 'make_performance_model.py:build_performance_table'
+    if len(body) != 6 or dump(body[0]) != dump(ast.parse("cols = ['fl', 'mass', 'tas', 'rocd', 'fuel_flow']").body[0]) \
+            or dump(body[1]) != dump(ast.parse('data = []').body[0]):
+        raise Untranslatable(f'{where}: prologue / statement count changed')
+    if dump(body[5]) != dump(ast.parse(
+            'return dict(cols=cols, data=sorted(data, key=lambda x: (x[1], x[0], -x[3])))').body[0]):
+        raise Untranslatable(f'{where}: return / sort key changed')
+    blocks = [('climb', ['tas', 'rocd_low', 'rocd_nom', 'rocd_high', 'fuel_flow_nom']),
+              ('cruise', ['tas', 'fuel_flow_low', 'fuel_flow_nom', 'fuel_flow_high']),
+              ('descent', ['tas', 'rocd_nom', 'fuel_flow_nom'])]
+    for st, (blk, fields) in zip(body[2:5], blocks):
+        if not (isinstance(st, ast.For) and not st.orelse and isinstance(st.target, ast.Name)
+                and dump(st.iter) == _e(f'ptf.{blk}')):
+            raise Untranslatable(f'{where}: expected `for r in ptf.{blk}`')
+        r = st.target.id
+        env = {f'{r}.fl': 'fl', 'ptf.low_mass': 'lo', 'ptf.nominal_mass': 'nom', 'ptf.high_mass': 'hi'}
+        env.update({f'{r}.{f}': f for f in fields})
+        rows = []
+        for ap in st.body:
+            c = ap.value if isinstance(ap, ast.Expr) else None
+            if not (isinstance(c, ast.Call) and dump(c.func) == _e('data.append') and len(c.args) == 1
+                    and isinstance(c.args[0], ast.List) and len(c.args[0].elts) == 5):
+                raise Untranslatable(f'{where}: body of the {blk} loop')
+            rows.append('mkRow ' + ' '.join(m.expr(x, env, where) for x in c.args[0].elts))
+        m.raw(f'Definition x_build_{blk} (lo nom hi fl {" ".join(fields)} : T N) : list (row N) :=\n  ['
+              + ';\n   '.join(rows) + '].')
